@@ -27,7 +27,7 @@ META = {
         "truth table vf/checks/c18.py:expected_valid is trusted",
     ],
     "required_classes": ["prebound_stale", "accepted", "rejected", "order:named", "order:reversed", "order:distractor", "id_absent", "landmark", "odometry"],
-    "bounds": {"quick": "the complete product named in the property + id alphabets (negative, sparse, huge) + custom edges with their own is_valid + all ordered 2-edge graphs over a consistent/inconsistent edge alphabet (a bad edge after a good edge of the same kind)", "thorough": "same"},
+    "bounds": {"quick": "the complete product named in the property + id alphabets (negative, sparse, huge) + custom edges with their own is_valid + all ordered 2-edge graphs over a consistent/inconsistent edge alphabet (a bad edge after a good edge of the same kind; both edges naming the same two vertices) + every vertex-list order of 3..5-vertex graphs (ids 0..N-1 and sparse) + every line order of a 5-line .g2o file with and without an unknown id", "thorough": "same"},
 }
 
 _VAL = {
@@ -77,6 +77,8 @@ def chunks(tier, seed):
     out.append(("custom", None, None))
     out.append(("multi", None, None))
     out.append(("dup", None, None))
+    out.append(("perm", None, None))
+    out.append(("file", None, None))
     return out
 
 
@@ -133,6 +135,10 @@ def run_chunk(chunk, tier, seed):
         gen = _cases_dup()
     elif typ == "custom":
         gen = _cases_custom()
+    elif typ == "perm":
+        gen = _cases_perm()
+    elif typ == "file":
+        gen = _cases_file()
     else:
         gen = _cases_multi()
     for case in gen:
@@ -216,6 +222,10 @@ def _eval_unguarded(case):
         return _eval_custom(case)
     if case["t"] == "multi":
         return _eval_multi(case)
+    if case["t"] == "perm":
+        return _eval_perm(case)
+    if case["t"] == "file":
+        return _eval_file(case)
     msgs = []
     e, vl, verts, named_ids = _build(case)
     try:
@@ -358,6 +368,9 @@ def _cases_multi():
         for j in range(len(_MULTI_EDGES)):
             for order in ORDERS:
                 yield {"t": "multi", "i": i, "j": j, "order": order}
+                if _MULTI_EDGES[i][1] == _MULTI_EDGES[j][1]:
+                    # both edges name the SAME two vertices (a repeated measurement / the same landmark seen twice)
+                    yield {"t": "multi", "i": i, "j": j, "order": order, "same": True}
 
 
 def _eval_multi(case):
@@ -370,8 +383,11 @@ def _eval_multi(case):
         edge, pt, meas, off, sh = _MULTI_EDGES[idx]
         c = {"edge": edge, "ptypes": pt, "meas": meas, "offset": off, "shape": sh, "absent": False}
         wants.append(expected_valid(c))
-        vs = [I.Vertex(100 * n + k, I.mk_pose(pt[k], _VAL[pt[k]])) for k in range(2)]
-        vl += vs
+        if case.get("same") and n == 1:
+            vs = bind[0]
+        else:
+            vs = [I.Vertex(100 * n + k, I.mk_pose(pt[k], _VAL[pt[k]])) for k in range(2)]
+            vl += vs
         info = np.eye(sh[0])
         m = _mk_meas(meas, pt[-1])
         if edge == "odometry":
@@ -383,7 +399,7 @@ def _eval_multi(case):
     if case["order"] == "reversed":
         vl = vl[::-1]
     elif case["order"] == "distractor":
-        vl = [vl[3], vl[0], vl[2], vl[1]]
+        vl = [vl[3], vl[0], vl[2], vl[1]] if len(vl) == 4 else [I.Vertex(-1, I.mk_pose("R2", [5.0, 5.0]))] + vl[::-1]
     try:
         I.Graph(edges, vl)
         accepted = True
@@ -398,3 +414,97 @@ def _eval_multi(case):
             if e.vertices is None or len(e.vertices) != 2 or e.vertices[0] is not vs[0] or e.vertices[1] is not vs[1]:
                 msgs.append("edge bound to the wrong vertex objects")
     return msgs, ("accepted" if accepted else "rejected")
+
+
+# ------------------------------------------------------------------ vertex-list orders of larger graphs
+_ID_SETS = {3: ([0, 1, 2], [0, 7, 2], [5, 0, 2]), 4: ([0, 1, 2, 3], [0, 9, 5, 3]), 5: ([0, 1, 2, 3, 4],)}
+
+
+def _cases_perm():
+    """3..5 vertices of DIFFERENT coordinates, ids 0..N-1 or sparse, listed in every order; edges name ids along a chain, its
+    closure and a chord.  Every edge must end up bound to the vertex objects whose ids it names."""
+    for n, idsets in sorted(_ID_SETS.items()):
+        for ids in idsets:
+            for perm in itertools.permutations(range(n)):
+                for kind in ("SE2", "R3"):
+                    yield {"t": "perm", "ids": list(ids), "perm": list(perm), "kind": kind}
+
+
+def _eval_perm(case):
+    ids, perm, kind = case["ids"], case["perm"], case["kind"]
+    n = len(ids)
+    verts = [I.Vertex(ids[k], I.mk_pose(kind, [x + 3.0 * k for x in _VAL[kind]][: len(_VAL[kind])])) for k in range(n)]
+    byid = {v.id: v for v in verts}
+    pairs = [(ids[k], ids[k + 1]) for k in range(n - 1)] + [(ids[n - 1], ids[0]), (ids[0], ids[n // 2])]
+    c = I.COMPACT[kind]
+    edges = [I.EdgeOdometry([a, b], np.eye(c), I.mk_pose(kind, _VAL[kind])) for a, b in pairs]
+    vl = [verts[k] for k in perm]
+    msgs = []
+    try:
+        I.Graph(edges, vl)
+    except Exception as ex:
+        return ["consistent %s graph, vertex ids listed as %r, edges %r: construction raised %s" % (kind, [v.id for v in vl], pairs, type(ex).__name__)], "rejected"
+    for e, (a, b) in zip(edges, pairs):
+        if e.vertices is None or len(e.vertices) != 2 or e.vertices[0] is not byid[a] or e.vertices[1] is not byid[b]:
+            msgs.append("vertex ids listed as %r: edge naming ids (%r, %r) is bound to vertices with ids %r" % ([v.id for v in vl], a, b, None if e.vertices is None else [v.id for v in e.vertices]))
+    return msgs, "accepted"
+
+
+# ------------------------------------------------------------------ the same contract through the .g2o loader
+_FILE_LINES = [
+    "VERTEX_SE2 0 0.1 -0.2 0.3",
+    "VERTEX_SE2 4 1.5 2.5 -3.0",
+    "VERTEX_XY 2 4.0 -5.5",
+    "EDGE_SE2 0 4 1.1 1.2 0.4 1.5 0.0 0.0 2.5 0.0 3.5",
+    "EDGE_SE2_XY 4 2 0.7 -0.8 7.25 0.0 9.25",
+]
+
+
+def _cases_file():
+    """every order of a 5-line file (edge records before / between / after the vertex records they name) x one id made unknown"""
+    for perm in itertools.permutations(range(5)):
+        for unknown in (None, 3, 4):
+            yield {"t": "file", "perm": list(perm), "unknown": unknown}
+
+
+def _eval_file(case):
+    import os
+    import shutil
+    import tempfile
+
+    lines = list(_FILE_LINES)
+    if case["unknown"] == 3:
+        lines[3] = lines[3].replace("EDGE_SE2 0 4", "EDGE_SE2 0 44")
+    elif case["unknown"] == 4:
+        lines[4] = lines[4].replace("EDGE_SE2_XY 4 2", "EDGE_SE2_XY 4 22")
+    text = "\n".join(lines[k] for k in case["perm"]) + "\n"
+    tmp = tempfile.mkdtemp(prefix="vf-c18-")
+    try:
+        path = os.path.join(tmp, "f.g2o")
+        with open(path, "w") as f:
+            f.write(text)
+        try:
+            g = I.Graph.from_g2o(path)
+            accepted = True
+        except Exception:
+            accepted = False
+    finally:
+        shutil.rmtree(tmp, ignore_errors=True)
+    msgs = []
+    if case["unknown"] is not None:
+        if accepted:
+            msgs.append("file with an edge naming an unknown vertex id was loaded without an error (%d edges in the graph); file:\n%s" % (len(I.graph_edges(g)), text))
+        return msgs, ("accepted" if accepted else "rejected")
+    if not accepted:
+        return ["consistent file (edge records not after their vertex records) was rejected; file:\n" + text], "rejected"
+    es = I.graph_edges(g)
+    byid = {v.id: v for v in I.graph_vertices(g)}
+    want = [k for k in case["perm"] if k >= 3]
+    if len(es) != 2:
+        msgs.append("consistent file: %d edges in the graph, the file has 2; file:\n%s" % (len(es), text))
+    else:
+        for e, k in zip(es, want):
+            a, b = (0, 4) if k == 3 else (4, 2)
+            if list(e.vertex_ids) != [a, b] or e.vertices is None or e.vertices[0] is not byid.get(a) or e.vertices[1] is not byid.get(b):
+                msgs.append("edge of file line %d is not bound to the vertices with ids (%d, %d)" % (k, a, b))
+    return msgs, "accepted"
